@@ -7,6 +7,9 @@
                           (writeout, then dump_modules when externalize)
      ford/fortran_project.py find_all_files: files under an exclude_dir are dropped
      ford/output.py       Documentation.writeout, copytree, DocPage/ListPage/PagetreePage.writeout
+                          (copy_subdir entries whose destination leaves <out>/page are skipped)
+     ford/pagetree.py     get_page_tree: which directory entries / ordered_subpage entries become
+                          pages (names starting with ".", ending in "~" or not plain names are skipped)
      ford/graphs.py       GraphManager.output_graphs, FortranGraph.create_svg/_create_image_file
      ford/tipue_search.py print_output
      ford/external_project.py dump_modules
@@ -163,6 +166,35 @@ Record page := {
   pg_files : list str              (* PageNode.files *)
 }.
 
+(* A candidate page as get_page_tree meets it: the names followed from the page directory, one
+   per level, exactly as written (os.listdir names or ordered_subpage entries, so any text:
+   "..", "sub/../../x.md", ...).  For an index page these are directory names; for another page
+   the last one is the .md file. *)
+Record cand := {
+  cd_entries : list str;
+  cd_index : bool;
+  cd_stem : str;
+  cd_copy : list rpath;
+  cd_files : list str }.
+
+(* get_page_tree's loop:  name[0] == "." -> skip;  name[-1] == "~" -> skip;
+   Path(name).name != name -> skip (not the name of an entry of this directory) *)
+Definition name_ok (n : str) : bool :=
+  match n with
+  | [] => false
+  | c :: _ => negb (ch_eqb c "."%char) && negb (ch_eqb (last n c) "~"%char)
+              && negb (existsb (fun x => ch_eqb x "/"%char) n)
+  end.
+
+Definition cand_ok (d : cand) : bool := forallb name_ok (cd_entries d).
+
+(* PageNode.location = relpath(path.parent, topdir): the directory names that were followed *)
+Definition page_of (d : cand) : page :=
+  {| pg_loc := if cd_index d then cd_entries d else removelast (cd_entries d);
+     pg_stem := cd_stem d; pg_copy := cd_copy d; pg_files := cd_files d |}.
+
+Definition pages_of (cands : list cand) : list page := map page_of (filter cand_ok cands).
+
 Inductive op :=
 | RmTree (p : path)                (* shutil.rmtree(p, ignore_errors=True) *)
 | Unlink (p : path)
@@ -205,12 +237,17 @@ Definition graph_ops (c : cfg) (p : proj) : list op :=
 (* PagetreePage.writeout *)
 Definition page_root (c : cfg) : path := out c ++ [s "page"].
 
+(* dest = normpath(to_path / item); skipped unless page_dir in (dest, *dest.parents) *)
+Definition copy_kept (c : cfg) (pg : page) (item : rpath) : bool :=
+  prefixb (page_root c) (norm (pjoin (page_root c ++ pg_loc pg) item)).
+
 Definition page_ops (c : cfg) (pd : path) (pg : page) : list op :=
   let to_path := norm (page_root c ++ pg_loc pg) in
   (if str_eqb (pg_stem pg) (s "index") then [MkDir to_path] else [])
   ++ [Write (norm (page_root c ++ pg_loc pg ++ [html (pg_stem pg)]))]
   ++ map (fun item => CopyTree (norm (pjoin (pd ++ pg_loc pg) item))
-                               (norm (pjoin (page_root c ++ pg_loc pg) item))) (pg_copy pg)
+                               (norm (pjoin (page_root c ++ pg_loc pg) item)))
+         (filter (copy_kept c pg) (pg_copy pg))
   ++ map (fun f => Copy (norm (pd ++ pg_loc pg ++ [f])) to_path) (pg_files pg).
 
 Definition pages_ops (c : cfg) (pages : list page) : list op :=
@@ -220,7 +257,7 @@ Definition pages_ops (c : cfg) (pages : list page) : list op :=
   end.
 
 (* Documentation.writeout, in the order of the code.  [out_is_file]: out_dir.is_file() *)
-Definition writeout_ops (out_is_file : bool) (pkg : path) (c : cfg) (p : proj) (pages : list page)
+Definition writeout_ops (out_is_file : bool) (pkg : path) (c : cfg) (p : proj) (cands : list cand)
   : list op :=
   let o := out c in
   [if out_is_file then Unlink o else RmTree o; MkDirParents o]
@@ -240,36 +277,22 @@ Definition writeout_ops (out_is_file : bool) (pkg : path) (c : cfg) (p : proj) (
      end
   ++ map (fun d => Write (o ++ [fst d; html (snd d)])) (p_docs p)
   ++ map (fun l => Write (o ++ [s "lists"; l])) (p_lists p)
-  ++ pages_ops c pages
+  ++ pages_ops c (pages_of cands)
   ++ [Write (o ++ [s "index.html"]); Write (o ++ [s "search.html"])].
 
 (* ford.main's tail: docs.writeout(); if externalize: dump_modules(project, path=output_dir) *)
-Definition main_ops (out_is_file : bool) (pkg : path) (c : cfg) (p : proj) (pages : list page)
+Definition main_ops (out_is_file : bool) (pkg : path) (c : cfg) (p : proj) (cands : list cand)
   : list op :=
-  writeout_ops out_is_file pkg c p pages
+  writeout_ops out_is_file pkg c p cands
   ++ (if externalize c then [Write (out c ++ [s "modules.json"])] else []).
 
 (* a whole run: parse_arguments raises before anything is touched when [refuse] holds *)
-Definition ford_ops (out_is_file : bool) (pkg : path) (c : cfg) (p : proj) (pages : list page)
+Definition ford_ops (out_is_file : bool) (pkg : path) (c : cfg) (p : proj) (cands : list cand)
   : list op :=
-  if refuse c then [] else main_ops out_is_file pkg c p pages.
+  if refuse c then [] else main_ops out_is_file pkg c p cands.
 
-(* the input class in which a page's paths stay below <out>: the page's location and every
-   copy_subdir entry are relative and never climb above the output directory *)
-Definition copy_ok (pg : page) : bool :=
-  forallb (fun item => negb (rp_abs item) && stays 0 (s "page" :: pg_loc pg ++ rp_comps item))
-          (pg_copy pg).
+(* a page location that never climbs above <out> (an invariant of pages_of, see the proofs) *)
 Definition loc_ok (pg : page) : bool := stays 0 (s "page" :: pg_loc pg).
-Definition pages_copy_ok (pages : list page) : bool := forallb copy_ok pages.
-Definition pages_loc_ok (pages : list page) : bool := forallb loc_ok pages.
-Definition pages_confined (pages : list page) : bool := pages_loc_ok pages && pages_copy_ok pages.
-
-(* wider class for the semantic theorems: an absolute copy_subdir entry (what normalise_paths
-   makes of the project-level copy_subdir option) yields copytree(x, x), which cannot do
-   anything: the destination exists whenever the source does *)
-Definition copy_safe (pg : page) : bool :=
-  forallb (fun item => rp_abs item || stays 0 (s "page" :: pg_loc pg ++ rp_comps item)) (pg_copy pg).
-Definition pages_safe (pages : list page) : bool := pages_loc_ok pages && forallb copy_safe pages.
 
 (* ------------------------------------------------------------------ file system *)
 
